@@ -1,6 +1,7 @@
 import DeepModel.Driver.Proto
 import DeepModel.Model.Collector
 import DeepModel.Model.CollectorTime
+import DeepModel.Model.CollectorDeferred
 open Lean Proto Heap Collector
 
 def probeOf {α : Type} (j : Json) (k : String) (f : Json → Except String α) : Except String (Probe α) := do
@@ -55,6 +56,23 @@ def parseTimedAction (j : Json) : Except String CollectorTime.TimedAction := do
   let sels ← (← getArr j "frames").toList.mapM (fun f => getBool f "selected")
   pure ⟨a.limits, List.zipWith (fun f s => ⟨f.locals, s⟩) a.frames sels, a.watches, ← getInt j "max_ms"⟩
 
+/-- `"deferred": {"event": e, "value": v}` on an action: the snapshot is completed later by the callback, run at trace event
+    `e` with argument `v` (`Collector.deferredSnapshot`) -/
+def deferredOf (j : Json) : Except String (Option (String × Nat)) := do
+  match j.getObjVal? "deferred" with
+  | .error _ => pure none
+  | .ok d => pure (some (← getStr d "event", ← getNat d "value"))
+
+def runActions (H : Heap) (acts : List ActionIn) (defs : List (Option (String × Nat))) : List Outcome :=
+  if defs.all Option.isNone then processActions H ⟨[], []⟩ acts
+  else List.zipWith (fun a d =>
+    match selfClassFailure H a.frames with
+    | some m => Outcome.failed m
+    | none =>
+      match d with
+      | some (ev, v) => deferredSnapshot H a ev v
+      | none => collect H a) acts defs
+
 def refJson (r : VarId) : Json :=
   Json.arr #[toJson r.vid, Json.str r.name, strs r.mods, optStr r.orig]
 
@@ -86,14 +104,16 @@ def handle (j : Json) : Except String Json := do
     match j.getObjVal? "clock" with
     | .error _ =>
       let acts ← (← getArr j "actions").toList.mapM parseAction
-      let outs := processActions H ⟨[], []⟩ acts
+      let defs ← (← getArr j "actions").toList.mapM deferredOf
+      let outs := runActions H acts defs
       pure (Json.mkObj [("actions", Json.arr (outs.map outcomeJson).toArray)])
     | .ok ck =>
       let reads ← (← getArr ck "reads").toList.mapM (fun x => x.getInt?)
       let script : Nat → Int := fun k => reads.getD k (reads.getLast?.getD 0)
       let tacts ← (← getArr j "actions").toList.mapM parseTimedAction
       let r := CollectorTime.timedActions (← getInt ck "ts") script 0 tacts
-      let outs := processActions H ⟨[], []⟩ r.1
+      let defs ← (← getArr j "actions").toList.mapM deferredOf
+      let outs := runActions H r.1 defs
       pure (Json.mkObj [("actions", Json.arr (outs.map outcomeJson).toArray), ("reads", toJson r.2),
                         ("collected", Json.arr (r.1.map (fun a => Json.arr (a.frames.map (fun f => Json.bool f.collect)).toArray)).toArray)])
   | "consts" =>
